@@ -243,8 +243,9 @@ _EXTRA = {
     "C05": ["samplers.mcmc:Emcee.sample", "samplers.mcmc:MiniPCN.sample", "samplers.smc.base:SMCSampler.sample"],
     "C08": ["aspire:Aspire.sample_posterior"],
     "C10": ["samplers.mcmc:Emcee.sample", "samplers.mcmc:MiniPCN.sample", "samples:BaseSamples.from_dict", "utils:PoolHandler.__exit__"],
-    "C11": ["samples:BaseSamples.from_samples"],
-    "C12": ["samplers.smc.base:SMCSampler.build_checkpoint_state"],
+    "C11": ["samples:BaseSamples.from_samples", "aspire:Aspire.resume_from_file"],
+    "C12": ["samplers.smc.base:SMCSampler.build_checkpoint_state", "aspire:Aspire.resume_from_file"],
+    "C14": ["aspire:Aspire.resume_from_file"],
     "C13": ["samples:BaseSamples.__setstate__", "transforms:CompositeTransform.__init__"],
     "C15": ["flows.jax.flows:FlowJax.save", "flows.torch.flows:BaseTorchFlow.save", "samples:BaseSamples.from_dict", "samples:Samples.rejection_sample",
             "transforms:CompositeTransform.forward", "transforms:CompositeTransform.inverse"],
